@@ -88,6 +88,32 @@ def run(ctx):
            what="the front ends build %s joins (%s) but the filter push-down pushes into both join sides without testing the join "
                 "type: a predicate pushed below an outer join changes which rows are null-extended" % (outer, [jt[k][0] for k in outer]),
            where=f.loc())
+    # ---- R5 the variable collectors behind the scope tests visit every sub-expression
+    # The guards of R2 compare variable sets computed by recursive collectors. A collector that skips one child of one
+    # expression kind under-approximates the set, the scope test passes wrongly, and a filter is pushed below the
+    # operator that binds one of its variables.
+    le = P.adt("plan::LogicalExpression")
+    for cname in ("Optimizer::collect_variables", "Optimizer::collect_from_expression"):
+        cf = P.fn(cname)
+        cx = FlowCx(P, cf)
+        per = {}
+        for bi, t in cf.calls():
+            if callee_name(t) == cf.id:
+                for x in cx.facts_at(bi):
+                    if x[0] == "variant" and x[1].endswith("LogicalExpression"):
+                        per[x[2]] = per.get(x[2], 0) + 1
+        nv = 0
+        for v in le["variants"]:
+            need = sum(1 for fl in v["fields"] if "LogicalExpression" in fl[1])
+            if need == 0:
+                continue
+            nv += 1
+            got = per.get(v["name"], 0)
+            ctx.ob("R5", "%s#%s" % (cname.split("::")[-1], v["name"]), got >= need,
+                   what="%s visits %d of the %d sub-expression fields of LogicalExpression::%s: variables used there are missing from "
+                        "the set the push-down scope tests rely on" % (cname, got, need, v["name"]), where=cf.loc())
+        ctx.floor("R5", nv, 8, "expression kinds with sub-expressions")
+
     # ---- R4 informational
     cj = P.fn("Optimizer::collect_join_tree")
     cjx = FlowCx(P, cj)
